@@ -37,6 +37,7 @@ def build(S, tier):
         "closed-form averages of the four target densities: <U> = (3N/2)kT for harmonic wells under exp(-U/kT); <cos theta> = coth x - 1/x under exp(x cos theta) sin theta; <V> = (N+1)kT/P under V^N exp(-PV/kT); Poisson(zV) under (zV)^N/N! (TRUSTED textbook integrals)",
         "exp/log are uninterpreted with ground instances of their algebraic laws (pyvc/solver.py axiom_instances)",
         "every assumption of the C02, C03, C10, C11 and C14 contracts that are re-discharged here"],
+        "scope_note": "KERNEL LEVEL ONLY: the statement (an almost-sure limit of averages over an unbounded history) is outside any function contract; what is discharged are the detailed-balance lemmas and the function contracts they rest on.",
         "undecided_clauses": ["convergence of ergodic averages (limit over the whole chain; for an individual seed the statement is almost-sure, not sure)",
                               "finite-length statistical error, mixing time"]}
 
